@@ -127,7 +127,7 @@ func TestCheck(t *testing.T) {
 		n    int
 	}
 	const chunk = 500
-	for _, s := range []src{{"raw-ep", gen.RawEP, r.N(40000, 400000)}, {"dense", gen.Dense, r.N(240000, 2400000)}, {"sparse", gen.Sparse, r.N(160000, 1600000)}, {"adv", gen.Adv, r.N(400000, 4000000)}} {
+	for _, s := range []src{{"raw-ep", gen.RawEP, r.N(40000, 1600000)}, {"dense", gen.Dense, r.N(240000, 9600000)}, {"sparse", gen.Sparse, r.N(160000, 6400000)}, {"adv", gen.Adv, r.N(400000, 16000000)}} {
 		ev.Parallel(s.n/chunk, func(wk, i int) {
 			w := ws[wk]
 			rng := r.RNG("c01-"+s.name, i)
@@ -163,7 +163,7 @@ func TestCheck(t *testing.T) {
 
 	// --- positions reached by ONE played move from generated positions: every double push (the
 	// e.p. bookkeeping happens in MakeMove, not in the loader) and a sample of the other moves
-	nstep := r.N(120000, 1200000)
+	nstep := r.N(120000, 4800000)
 	ev.Parallel(nstep/chunk, func(wk, i int) {
 		w := ws[wk]
 		rng := r.RNG("c01-onestep", i)
@@ -203,7 +203,7 @@ func TestCheck(t *testing.T) {
 	// --- reached positions: the engine board is carried along by MakeMove, never reloaded;
 	// after every move the carried board and a freshly loaded one are both compared.
 	corpus := gen.Corpus()
-	games := r.N(3000, 30000)
+	games := r.N(3000, 120000)
 	ev.Parallel(games, func(wk, i int) {
 		w := ws[wk]
 		rng := r.RNG("c01-play", i)
@@ -285,7 +285,7 @@ func TestCheck(t *testing.T) {
 	})
 
 	// --- perft observation points: debug.Perft and the UCI perft command vs reference perft
-	np := r.N(1500, 15000)
+	np := r.N(1500, 60000)
 	ev.Parallel(np, func(wk, i int) {
 		rng := r.RNG("c01-perft", i)
 		p := gen.AnyPos(rng)
@@ -300,7 +300,7 @@ func TestCheck(t *testing.T) {
 		}
 	})
 	// UCI `perft N` (prints its split to the process stdout, which the runner sends to a file)
-	nu := r.N(100, 1000)
+	nu := r.N(100, 4000)
 	for i := 0; i < nu; i++ {
 		rng := r.RNG("c01-uciperft", i)
 		p := gen.AnyPos(rng)
